@@ -5,7 +5,8 @@
  * not the holder and a wait by the holder; the same program is also built with -fsanitize=thread.
  *
  * script (one scenario per line; `--- <id>` separates and is echoed):
- *   srv seed=<n> mode=<0|1|2> conns=<1..4> apps=<1..4> rounds=<n> reent=<0|1> raw=<0|1> stop=<0|1>
+ *   srv seed=<n> mode=<0|1|2> conns=<1..4> apps=<1..4> rounds=<n> reent=<0|1> raw=<0|1> stop=<0|1|2>
+ *       (stop: 0 = stop after the peers are done, 1 = stop while everything is busy, 2 = destroy while the peers are still talking)
  *   cli seed=<n> apps=<1..4> rounds=<n> reent=<0|1> raw=<0|1> close=<0|1>
  * trace:
  *   sem <count> <first instrumentation message> [cb=<event> api=<function>]
@@ -218,17 +219,28 @@ static void run_srv(void)
     for (int i = 0; i < P.conns; i++) { peers[i].id = i; peers[i].rng.s = (uint64_t) P.seed * 31337u + (uint64_t) i * 977u; pthread_create(&pt[i], NULL, srv_peer, &peers[i]); }
     for (int i = 0; i < P.apps; i++) pthread_create(&at[i], NULL, srv_app, (void*) (intptr_t) (i + 1));
     Rng r = { (uint64_t) P.seed * 1299709u };
-    if (P.stop) {                      /* stop while peers and application threads are still busy */
+    if (P.stop == 1) {                 /* stop while peers and application threads are still busy */
         usleep(2000 + below(&r, 20000));
         CS104_Slave_stop(slave);
     }
-    for (int i = 0; i < P.conns; i++) pthread_join(pt[i], NULL);
-    if (!P.stop) { usleep(2000); }
-    FLAG_SET(stop_apps, 1);
-    for (int i = 0; i < P.apps; i++) pthread_join(at[i], NULL);
-    if (!P.stop) CS104_Slave_stop(slave);
-    int open = CS104_Slave_getOpenConnections(slave);
-    CS104_Slave_destroy(slave); slave = NULL;
+    int open = 0;
+    if (P.stop == 2) {                 /* destroy (which stops) while the peers are still talking; application threads are done first */
+        usleep(2000 + below(&r, 15000));
+        FLAG_SET(stop_apps, 1);
+        for (int i = 0; i < P.apps; i++) pthread_join(at[i], NULL);
+        CS104_Slave_destroy(slave);
+        for (int i = 0; i < P.conns; i++) pthread_join(pt[i], NULL);
+        slave = NULL;
+    }
+    else {
+        for (int i = 0; i < P.conns; i++) pthread_join(pt[i], NULL);
+        if (!P.stop) { usleep(2000); }
+        FLAG_SET(stop_apps, 1);
+        for (int i = 0; i < P.apps; i++) pthread_join(at[i], NULL);
+        if (!P.stop) CS104_Slave_stop(slave);
+        open = CS104_Slave_getOpenConnections(slave);
+        CS104_Slave_destroy(slave); slave = NULL;
+    }
     long ifr = 0; for (int i = 0; i < P.conns; i++) { ifr += peers[i].iframes; Sim_freeSocket(peers[i].s); }
     if (sim_sem_errors) printf("sem %d %s%s\n", sim_sem_errors, sim_sem_error_text, cb_note);
     printf("done srv open=%d enq=%ld query=%ld events=%ld asdus=%ld raw=%ld iframes=%ld\n", open, n_enq, n_query, n_events, n_asdus, n_rawcb, ifr);
@@ -356,7 +368,7 @@ int main(void)
         if (P.apps < 1) P.apps = 1; if (P.apps > 4) P.apps = 4;
         Sim_reset(); Sim_setTime(1000000); sim_sem_errors = 0; sim_sem_error_text[0] = 0; cb_note[0] = 0;
         n_enq = n_query = n_events = n_asdus = n_rawcb = n_sent = n_recv = 0;
-        alarm(20);
+        alarm(8);
         if (!strcmp(cmd, "srv")) run_srv();
         else if (!strcmp(cmd, "cli")) run_cli();
         else printf("? %s\n", cmd);
